@@ -45,6 +45,13 @@ def plan(tier):
     p.append((S.T2(shared=S.VM1_CHAIN[:2]).variant("/shared=install+customize,ALL-SCHEDULES"), 99, 1))
     if not q:
         p.append((S.T2(shared=S.VM1_CHAIN[:1]).variant("/shared=install,ALL-SCHEDULES"), 99, 4))
+    # realistic long budgets (the stock test_timeout of 3600 s => back-off 3.6 s): tests legitimately running for 2000-3000 s while another
+    # worker of the scope has nothing else to do; waiting must be accounted as the time really waited
+    for scn_, kk in ((S.T1(shared=S.VM1_CHAIN[:2], params={"test_timeout": 3600}, D=(1.0, 20000.0, 30000.0)).variant("/timeout=3600s,D<=3000s"), 1 if q else 2),
+                     (S.T1(shared=S.VM1_CHAIN[:2], params={"test_timeout": 14400}, D=(1.0, 60000.0)).variant("/timeout=14400s,D<=6000s"), 1),
+                     (S.T1(shared=S.VM1_CHAIN[:2], params={"test_timeout": 3600, "max_tries": 2, "max_concurrent_tries": 1}, D=(1.0, 40000.0)).variant("/timeout=3600s,mt=2,mct=1,D<=4000s"), 1)):
+        scn_.max_steps, scn_.max_vtime = 400000, 100000.0
+        p.append((scn_, kk, 1))
     # configuration matrix: worker kinds x reuse scopes x slot bindings (same selection, default schedule and single deviations)
     p += S.config_matrix(lambda nets, **kw: S.T2(nets, D=DL, **kw), tier)
     p += [(scn.variant(",mt=2,mct=2"), k, w) for scn, k, w in S.config_matrix(lambda nets, **kw: S.T1(nets, D=DL, **kw), tier, k_quick=0, k_thorough=1,
